@@ -1,5 +1,6 @@
 import FitModel.DecoderApi
 import FitModel.DecoderApiSpec
+import FitModel.Generated.DecApiStdFactory
 import Driver.Util
 import Driver.ValCodec
 -- @family decapi Drv.DecApi.hDecApi
@@ -118,8 +119,13 @@ def parseFacEntry (s0 : String) : Option FacEntry :=
     pure ⟨mn, fnum, ⟨true, bt, flags.contains 'b', flags.contains 'a', flags.contains 'c', comps⟩⟩
   | _ => none
 
+/-- `factory.StandardFactory()` as the decoder reads it with component expansion off (regenerated table) -/
+def stdFactory : Factory :=
+  Fit.Gen.DecApi.stdFactoryRaw.map fun (m, n, bt, fl) =>
+    ⟨m, n, ⟨true, bt, fl / 2 % 2 == 1, fl % 2 == 1, fl / 4 % 2 == 1, []⟩⟩
+
 def parseFactory (s : String) : Option Factory :=
-  if s == "-" then some [] else (s.splitOn ";").mapM parseFacEntry
+  if s == "-" then some [] else if s == "std" then some stdFactory else (s.splitOn ";").mapM parseFacEntry
 
 def parseOp (o : Opts) (streams : List (List Nat)) (s : String) : Option Op :=
   match s with
